@@ -474,6 +474,7 @@ class Check:
         self.coverage["print_assumptions"] = assum.splitlines()[-40:]
         self.coverage["coq_wall_s"] = round(time.time() - t, 1)
         self.proof_ok = bool(ok and okp and not bad and stated == closed)
+        self._proofs_ran = (prop_file, list(extra_props))
         if not self.proof_ok:
             self.coverage["proof_failure_log"] = self.proof_log[-2500:]
         axioms = [l for l in assum.splitlines() if l.strip() and "Closed under the global context" not in l and not l.startswith("File ") and "Warning" not in l]
@@ -490,6 +491,10 @@ class Check:
                            % (len(self.broken), str(self.broken[0])[:200]),
                            {"kind": "model-validation", "broken": "validation of the check's model/oracle against the implementation", "problems": [str(b)[:2000] for b in self.broken[:20]]},
                            no_failing_input=True)
+        if getattr(self, "_proofs_ran", None) and not self.proof_ok and not self.violations:
+            # safety net: a check that ran its proofs, saw them fail and recorded no violation of its own must not exit 0
+            self.violation("proof obligation broken: %s no longer check(s) (forbidden-scan: %s)" % (", ".join([self._proofs_ran[0]] + self._proofs_ran[1]), self.coverage.get("forbidden_scan")),
+                           {"kind": "proof", "broken": ", ".join([self._proofs_ran[0]] + self._proofs_ran[1]), "log": getattr(self, "proof_log", "")[-2500:]}, no_failing_input=True)
         cov = self.coverage
         cov.setdefault("obligations", 0)
         cov.setdefault("discharged", 0)
